@@ -200,6 +200,11 @@ pub struct PktSink {
     src: NCReadStream<Vec<u8>>,
     got: Arc<Mutex<Vec<Vec<u8>>>>,
 }
+impl PktSink {
+    pub fn new(src: NCReadStream<Vec<u8>>, got: Arc<Mutex<Vec<Vec<u8>>>>) -> Self {
+        Self { src, got }
+    }
+}
 impl BlockName for PktSink {
     fn block_name(&self) -> &str {
         "PktSink"
